@@ -148,7 +148,38 @@ WIDE_T = [
 WT_ALL = WT + WIDE_T
 
 
-def shape_program(rnd, nf=3, wide=True, raise_p=0.12, depth=3, maxn=5):
+ERR_PRELUDE = [
+    [S("defmacro"), S("m-tmpl"), [S("a")], [S("quasiquote"), [S("progn"), [S("unquote"), S("a")], [S("error"), Q(S("in-template")), 1]]]],
+    [S("defmacro"), S("m-built-head"), [S("a")], [S("list"), Q(S("notfun")), S("a")]],
+    [S("defmacro"), S("m-tmpl-arity"), [S("a")], [S("quasiquote"), [S("car"), [S("unquote-splicing"), [S("list"), S("a"), 1, 2]]]]],
+    [S("defmacro"), S("m-built-call"), [S("a")], [S("list"), S("car"), S("a"), 2]],
+    [S("defmacro"), S("m-built-unbound"), [S("a")], [S("quasiquote"), [S("list"), [S("unquote"), S("a")], S("unbound-in-template")]]],
+    [S("defun"), S("deep-fail"), [S("d")], [S("if"), [S("<="), S("d"), 0], [S("car"), 1, 2], [S("+"), 1, [S("deep-fail"), [S("-"), S("d"), 1]]]]],
+]
+ERR_LEAVES = [
+    lambda r: [S("error"), Q(S("my-cond")), STR("boom")],
+    lambda r: [S("error"), Q(S("other-cond")), 1],
+    lambda r: [S("boom")],
+    lambda r: S("unbound-symbol-x"),
+    lambda r: [S("car"), 1, 2],
+    lambda r: [S("car"), 5],
+    lambda r: [S("cons"), 1, 2],
+    lambda r: [5, 1],
+    lambda r: [S("rethrow")],
+    lambda r: [S("m-tmpl"), 0],
+    lambda r: [S("m-built-head"), 0],
+    lambda r: [S("m-tmpl-arity"), Q([9])],
+    lambda r: [S("m-built-call"), Q([1])],
+    lambda r: [S("m-built-unbound"), 3],
+    lambda r: [S("deep-fail"), r.randrange(4)],
+    lambda r: [[S("lambda"), [S("a")], [S("car"), S("a"), S("a")]], 1],
+    lambda r: [S("funcall"), Q(S("car")), 1, 2],
+    lambda r: [S("set!"), S("never-bound"), 1],
+    lambda r: [S("let"), [[S("v"), [S("nosuch-fn"), 1]]], S("v")],
+]
+
+
+def shape_program(rnd, nf=3, wide=True, raise_p=0.12, depth=3, maxn=5, err_kinds=False):
     """One program of the shape-indexed family.  Returns list of top-level forms."""
     wr = list(WRAPPERS) + (WIDE_T if wide else [])
 
@@ -157,6 +188,8 @@ def shape_program(rnd, nf=3, wide=True, raise_p=0.12, depth=3, maxn=5):
 
     def leaf():
         x = rnd.random()
+        if err_kinds and x < raise_p:
+            return rnd.choice(ERR_LEAVES)(rnd)
         if x < raise_p:
             return [S("error"), Q(S("my-cond")), STR("boom")] if rnd.random() < 0.8 else [S("error"), Q(S("other-cond")), 1]
         if wide and x < raise_p + 0.02:
@@ -171,7 +204,7 @@ def shape_program(rnd, nf=3, wide=True, raise_p=0.12, depth=3, maxn=5):
             e = rnd.choice(wr)[2](e, rnd)
         return [S("if"), [S("and"), [S(">"), S("n"), 0], [S("="), S("k"), rnd.randrange(3)]], e, Q(S("skip"))]
 
-    forms = list(PRELUDE)
+    forms = list(PRELUDE) + (list(ERR_PRELUDE) if err_kinds else [])
     for i in range(nf):
         body = [[S("probe"), Q(S("enter%d" % i)), S("n"), S("k")]] + [form() for _ in range(rnd.randrange(3))] + [form()]
         forms.append([S("defun"), S("f%d" % i), [S("n"), S("k")]] + body)
